@@ -2,6 +2,8 @@ package ply
 
 import (
 	"errors"
+	"fmt"
+	"io"
 	"strconv"
 )
 
@@ -12,9 +14,17 @@ type listAsciiPropertyReader struct {
 }
 
 func (lpr *listAsciiPropertyReader) Read(line []string) (offset int, err error) {
+	if len(line) == 0 {
+		return -1, fmt.Errorf("list property %q is missing its count: %w", lpr.property.Name(), io.ErrUnexpectedEOF)
+	}
+
 	v, err := strconv.ParseInt(line[0], 10, 32)
 	if err != nil {
 		return -1, err
+	}
+
+	if v < 0 || int(v) > len(line)-1 {
+		return -1, fmt.Errorf("list property %q declares %d entries but only %d are present: %w", lpr.property.Name(), v, len(line)-1, io.ErrUnexpectedEOF)
 	}
 	lpr.lastReadListSize = int32(v)
 
